@@ -1,18 +1,90 @@
 /-
   C11 — delimited lists parse segment by segment, one error per bad segment.
-  INTERIM file.  Proved here: splitting at separators loses no token
-  (`splitAtSep` re-joins to the input) and yields one more segment than there
-  are separators; in the model an upper bound of zero parses nothing.  The
-  refinement theorem for the model of `list_bounded_default` is in progress;
-  the `list` correspondence family + oracle carries the statement meanwhile.
-  Recorded finding F21 (a bad last segment with no abort token ahead fails the
-  list) is replayed by the check.
+
+  English.  `list`, `list_bounded`, `list_default`, `list_bounded_default`
+  (tephra-combinator/src/list.rs; the variants `v = 0,1,2,3` of `G.list v id lo hi item
+  sep abort`; Lean model: the `.list` case of `run`, `listLoop`, `stabValue`,
+  `recoverDefault`, and the `.upTo` / `.stabilize` / `.maybe` cases, TephraModel/Run.lean)
+  are compared with the specification `Spec.listSpec` (TephraModel/Spec/ListSpec.lean):
+  cut the filtered tokens before the first abort token at each separator, drop one
+  trailing empty segment, keep at most `hi` segments, judge each segment in isolation
+  with the reference evaluator `Spec.peg` (`Spec.evalSegment`: the item must accept
+  exactly the whole segment).  `listOracle` (TephraModel/Fam/Oracles.lean) is the same
+  statement evaluated on the real code by the driver.
+
+  Vocabulary.  `ScanOK`: scanner contract.  `PassOK`: the filter table is the harness
+  table.  `AtIdx E m len f K j lx`: `lx` is a well-formed lexer with filter `f` whose
+  remaining filtered stream is `K.drop j` (take `K = kept lx`, `j = 0` for "the stream of
+  `lx`").  `segOf sep abort V` / `tailOf sep abort V`: the tokens of `V` before the first
+  separator / abort token, and the rest.  `bnd sep abort k`: `k` is the separator kind or
+  an abort kind.  `effLo v lo`, `effHi v hi`: the bounds in force (`list`, `list_default`
+  ignore them).  `render v`: how an entry of `listSpec` shows in the result vector —
+  `x` / `Val.some x` for a good segment, `Val.dflt` / `Val.none` for a placeholder,
+  according to the variant.  `patOf sep abort`: the recovery closure the list installs;
+  `specOf W id`: the closure registered under the list's closure identity `id` (fresh,
+  or already this closure).  `logged W ctx e`: `W` with `ctx.apply e` appended to the sink
+  log.  `valueRound` is `stabilize(recover_default(up_to(item', sep_or_abort), pat))`,
+  one value of the loop.
+
+  Hypotheses on the item (`ItemHyp text f a sep abort`), stated SEMANTICALLY on the
+  reference evaluator:
+  * `frag`: `a` is in the fragment `pegWithRep` on which `run` refines `Spec.peg`
+    (`C07_partial`);
+  * `nonnull`: whenever `peg … a s = ok v s'`, `s'.view` is strictly shorter than `s.view`;
+  * `local_ok`, `local_fail`: LOCALITY.  For every state `s`, with `seg`/`tl` the split of
+    `s.view` at the first separator / abort token: if `a` succeeds on `s` leaving `s'`, it
+    succeeds with the same value on the isolated segment `⟨seg, eot, f⟩` leaving `t'`,
+    `s'.view = t'.view ++ tl` and `t'.view` holds no separator / abort token; if it fails on
+    `s` it fails on the isolated segment.  This contains separator/abort-freeness (chosen
+    form: semantic; nothing from the first separator / abort token on is consumed) and is
+    strictly stronger.  It is NECESSARY: `C11_needs_locality` refutes the statement with
+    separator/abort-freeness alone (`C11_statement`), with the item
+    `left(one(a), end_of_text)` on `a,a`; `C11_lookahead_witness` / `C11_rejected_witness`
+    are the two other ways an item can look past its segment without consuming (negative
+    lookahead through `implies(_, always-failing)`; `seq_count` in front of a byte the
+    scanner rejects — `evalSegment` gives every segment the end-of-text terminator).
+  * `C11_item_syntactic`: a DECIDABLE sufficient condition — `locG (sep :: abort) a`
+    (the item is built from `empty one any any_index seq pred left right both center map
+    discard either maybe require_if cond implies antecedent consequent cond_implies repeat
+    intersperse intersperse_default` with `lo ≤ hi`, and no primitive can match a separator /
+    abort kind; no `end_of_text`, `seq_count`, stop parser) and `nnG a` (conservative
+    non-nullability).
+  The specification judges with the fixed fuel 4000: `SpecFuelOK text f a K` says that on
+  the segments of `K` this fuel decides like any other sufficient fuel
+  (`C11_spec_fuel`: for items without a stop parser it is "4000 is enough").
+
+  Proved (`TephraProofs/ListRefine.lean`, `ListWalk.lean`, `ListLocal.lean`,
+  `PegFuel.lean`, `ListWitness.lean`):
+  * `C11_value_step` — one round of the loop, with and without a sink (see the theorem).
+  * `C11_list_partial` — the combinator against `listSpec`, with a sink (F21 excluded:
+    `lastBadAtEnd = false`) and without.  "Partial" refers to the added locality
+    hypothesis only; fuel: the statement is about every fuel with which the model does not
+    run out (C02 provides one).  Entry lexer not recovering (`lx.recover = none`).
+  * `C11_finding_F21` — the recorded finding, by evaluation; `C11_value_step` (third case)
+    is its general form: a bad segment running to the end of the stream makes the round,
+    hence the list, fail with `RecoverError` after logging the item's error.
+  * `C11_no_panic` — the missing piece of C01 for `list*`: for every item of `pegWithRep`
+    (no other hypothesis), bounds `lo ≤ hi`, any well-formed entry lexer — recovering or not
+    — sink or not: no panic.  `C11_loop_no_panic` is the loop statement: entered with no
+    value yet, or with a lexer that is not recovering, the `debug_assert` of `finish`
+    (`vals.is_empty() || lexer.recover_state().is_none()`) cannot fire.
+  * kept from the interim file: `C11_split_count`, `C11_model_hi_zero`.
+
+  Unbounded: any scanner satisfying the contract, text, metrics, filter, bounds, variant,
+  separator, abort kinds, item of the stated classes, fuel, context chain, world.
 -/
 import TephraModel.Fam.Oracles
 import TephraModel.Spec.ListSpec
+import TephraProofs.ListRefine
+import TephraProofs.ListLocal
+import TephraProofs.ListWitness
 
 namespace Tephra.Props
-open Tephra Tephra.Fam.Oracles Tephra.Spec
+open Tephra Tephra.Fam.Oracles Tephra.Spec Tephra.ListRefine Tephra.ListLocal Tephra.ListWitness
+open Tephra.BracketRefine Tephra.PegRefine Tephra.LexIter
+open Tephra.RecoverFrame (specOf)
+open Tephra.RecoverProof (logged)
+open Tephra.Term (listItem listDv)
 
 theorem C11_split_count (sep : Nat) (l : List (Spec.RawTok Tok)) :
     (splitAtSep sep l).length = (l.filter (·.tok.kind == sep)).length + 1 := by
@@ -25,13 +97,326 @@ theorem C11_split_count (sep : Nat) (l : List (Spec.RawTok Tok)) :
     | cons seg segs =>
       simp only [hs] at ih
       by_cases hk : r.tok.kind == sep
-      · simp [hk, List.filter_cons]; simp at ih; omega
-      · simp [hk, List.filter_cons]; simp at ih; omega
+      · simp [hk]; simp at ih; omega
+      · simp [hk]; simp at ih; omega
 
 theorem C11_model_hi_zero (R : RunEnv) (n v id lo : Nat) (a : G) (sep : Nat) (abort : List Nat) (lx : Lx)
     (ctx : Ctx) (W : World) (hv : v % 2 = 1) :
     run R (n + 1) (.list v id lo (some 0) a sep abort) lx ctx W = (.ok (.list []) lx, W) := by
   have : ¬ (v % 2 == 0) = true := by simp [hv]
   simp [run, this]
+
+/-! ### 1. one round of the loop -/
+
+/-- **C11, one round.**  Lexer `lx` at index `j` of the stream `K`, not recovering; `seg` =
+the tokens from `j` to the next separator / abort token or the end.  With a sink the round
+(`valueRound`) does one of:
+(good) returns the item's value (wrapped in `Some` for `list`/`list_bounded`), registers the
+  closure, logs nothing; (bad, followed) returns the placeholder and logs exactly one error;
+  in both cases the returned lexer sits at the end of `seg` and is not recovering;
+(F21) `seg` is bad and nothing follows it: `Err(RecoverError)` after logging the error;
+or it runs out of fuel.  Without a sink: the value, or the item's / boundary error with
+nothing logged. -/
+theorem C11_value_step {R : RunEnv} {m : Metrics} {len : Nat} (ok : ScanOK R.E m len) (hp : PassOK R.E)
+    {f : Option Nat} {a : G} {sep : Nat} {abort : List Nat} (H : ItemHyp R.text f a sep abort)
+    {K : List (RawTok Tok)} (hF : SpecFuelOK R.text f a K) {j : Nat} {lx : Lx}
+    (hat : AtIdx R.E m len f K j lx) (hrec : lx.recover = none) (v n id : Nat) (ctx : Ctx) (W : World)
+    (hW : specOf W id = none ∨ specOf W id = some (patOf sep abort)) :
+    (ctx.sink = true →
+      (∃ x lx', valueRound R n v id a sep abort lx ctx W = (.ok (wrapV v x) lx', W.register id (patOf sep abort)) ∧
+          evalSegment R.text f a (segOf sep abort (K.drop j)) = some x ∧
+          AtIdx R.E m len f K (j + (segOf sep abort (K.drop j)).length) lx' ∧ lx'.recover = none) ∨
+      (evalSegment R.text f a (segOf sep abort (K.drop j)) = none ∧ tailOf sep abort (K.drop j) ≠ [] ∧
+        ∃ e lx', valueRound R n v id a sep abort lx ctx W =
+            (.ok (listDv v) lx', logged (W.register id (patOf sep abort)) ctx e) ∧
+          AtIdx R.E m len f K (j + (segOf sep abort (K.drop j)).length) lx' ∧ lx'.recover = none) ∨
+      (evalSegment R.text f a (segOf sep abort (K.drop j)) = none ∧ tailOf sep abort (K.drop j) = [] ∧
+        ∃ e, valueRound R n v id a sep abort lx ctx W =
+            (.err ⟨[], .recover⟩, logged (W.register id (patOf sep abort)) ctx e)) ∨
+      (valueRound R n v id a sep abort lx ctx W).1 = .fuel) ∧
+    (ctx.sink = false →
+      (∃ x lx', valueRound R n v id a sep abort lx ctx W = (.ok (wrapV v x) lx', W.register id (patOf sep abort)) ∧
+          evalSegment R.text f a (segOf sep abort (K.drop j)) = some x ∧
+          AtIdx R.E m len f K (j + (segOf sep abort (K.drop j)).length) lx' ∧ lx'.recover = none) ∨
+      (evalSegment R.text f a (segOf sep abort (K.drop j)) = none ∧
+        ∃ e, valueRound R n v id a sep abort lx ctx W = (.err e, W.register id (patOf sep abort))) ∨
+      (valueRound R n v id a sep abort lx ctx W).1 = .fuel) :=
+  ⟨fun hs => value_step_sink ok hp H hF hat hrec v n id ctx W hW hs,
+   fun hs => value_step_nosink ok hp H hF hat hrec v n id ctx W hs⟩
+
+/-- `valueRound` is literally the value step of `listLoop`. -/
+theorem C11_valueRound_def (R : RunEnv) (n v id : Nat) (a : G) (sep : Nat) (abort : List Nat) (lx : Lx) (ctx : Ctx)
+    (W : World) :
+    valueRound R n v id a sep abort lx ctx W =
+      stabValue R n (if v < 2 then Val.none else Val.dflt) id (.sepOrAbort sep abort)
+        (.upTo (if v < 2 then G.someOf a else a) (sep :: abort)) lx ctx
+        (recoverDefault R n (if v < 2 then Val.none else Val.dflt) id (.sepOrAbort sep abort)
+          (.upTo (if v < 2 then G.someOf a else a) (sep :: abort)) lx ctx W).1
+        (recoverDefault R n (if v < 2 then Val.none else Val.dflt) id (.sepOrAbort sep abort)
+          (.upTo (if v < 2 then G.someOf a else a) (sep :: abort)) lx ctx W).2 := rfl
+
+/-! ### 2. the combinator against `listSpec` -/
+
+/-- FULL statement as first formulated (kept as a def; REFUTED by `C11_needs_locality`): the
+item is in the fragment, non-nullable and separator/abort-free — without locality. -/
+structure ItemHyp0 (text : Text) (f : Option Nat) (a : G) (sep : Nat) (abort : List Nat) : Prop where
+  frag : pegWithRep a = true
+  nonnull : ∀ k (s : PState) v s', s.filter = f → peg text k a s = .ok v s' → s'.view.length < s.view.length
+  /-- nothing from the first separator / abort token on is consumed -/
+  sepFree : ∀ k (s : PState) v s', s.filter = f → peg text k a s = .ok v s' →
+    ∃ u, s'.view = u ++ tailOf sep abort s.view
+
+def C11_statement : Prop :=
+  ∀ (R : RunEnv) (m : Metrics) (len : Nat), ScanOK R.E m len → PassOK R.E →
+  ∀ (f : Option Nat) (a : G) (sep : Nat) (abort : List Nat), ItemHyp0 R.text f a sep abort →
+  ∀ (K : List (RawTok Tok)), SpecFuelOK R.text f a K →
+  ∀ (n v id lo : Nat) (hi : Option Nat) (j : Nat) (lx : Lx) (ctx : Ctx) (W : World),
+    effHi v hi ≠ some 0 → hiBelow (effHi v hi) (effLo v lo) = false →
+    AtIdx R.E m len f K j lx → lx.recover = none →
+    (specOf W id = none ∨ specOf W id = some (patOf sep abort)) → ctx.sink = true →
+    (run R (n + 1) (.list v id lo hi a sep abort) lx ctx W).1 ≠ .fuel →
+    (listSpec R.text f (effHi v hi) a sep abort (K.drop j)).lastBadAtEnd = false →
+    SinkConcl R m len f K a sep abort n v id lo hi j lx ctx W
+
+/-- The locality hypothesis contains the hypotheses of `C11_statement`. -/
+theorem C11_itemHyp_stronger {text : Text} {f : Option Nat} {a : G} {sep : Nat} {abort : List Nat}
+    (H : ItemHyp text f a sep abort) : ItemHyp0 text f a sep abort := by
+  refine ⟨H.frag, H.nonnull, ?_⟩
+  intro k s v s' hf h
+  obtain ⟨t', _, hview, _⟩ := H.local_ok k s v s' hf h
+  exact ⟨t'.view, hview⟩
+
+/-- **C11, the combinator** (top-level `list*` on a lexer at index `j` of `K`, not recovering,
+closure identity fresh or already the list's, bounds `lo ≤ hi`, upper bound not zero, fuel
+with which the model does not run out).
+With a sink, when `listSpec` does not flag F21: the list succeeds with the rendering of the
+entries of `listSpec`; the returned lexer continues `consumed` tokens further and is not
+recovering; the sink log has grown by exactly `nbad` errors followed by the count error when
+there are fewer than `lo` entries (`SinkConcl`).
+Without a sink: when all segments are good and there are at least `lo` of them, the same
+result with nothing logged; otherwise an error with nothing logged, which is the count error
+when all segments are good. -/
+theorem C11_list_partial {R : RunEnv} {m : Metrics} {len : Nat} (ok : ScanOK R.E m len) (hp : PassOK R.E)
+    {f : Option Nat} {a : G} {sep : Nat} {abort : List Nat} (H : ItemHyp R.text f a sep abort)
+    {K : List (RawTok Tok)} (hF : SpecFuelOK R.text f a K)
+    (n v id lo : Nat) (hi : Option Nat) {j : Nat} {lx : Lx} (ctx : Ctx) (W : World)
+    (hhi : effHi v hi ≠ some 0) (hlo : hiBelow (effHi v hi) (effLo v lo) = false)
+    (hat : AtIdx R.E m len f K j lx) (hrec : lx.recover = none)
+    (hW : specOf W id = none ∨ specOf W id = some (patOf sep abort))
+    (hne : (run R (n + 1) (.list v id lo hi a sep abort) lx ctx W).1 ≠ .fuel) :
+    (ctx.sink = true → (listSpec R.text f (effHi v hi) a sep abort (K.drop j)).lastBadAtEnd = false →
+      SinkConcl R m len f K a sep abort n v id lo hi j lx ctx W) ∧
+    (ctx.sink = false →
+      ((listSpec R.text f (effHi v hi) a sep abort (K.drop j)).nbad = 0 ∧
+        effLo v lo ≤ (listSpec R.text f (effHi v hi) a sep abort (K.drop j)).entries.length →
+        ∃ lx' W', run R (n + 1) (.list v id lo hi a sep abort) lx ctx W =
+            (.ok (.list ((listSpec R.text f (effHi v hi) a sep abort (K.drop j)).entries.map (render v))) lx', W') ∧
+          AtIdx R.E m len f K (j + (listSpec R.text f (effHi v hi) a sep abort (K.drop j)).consumed) lx' ∧
+          lx'.recover = none ∧ W'.log = W.log) ∧
+      (¬ ((listSpec R.text f (effHi v hi) a sep abort (K.drop j)).nbad = 0 ∧
+        effLo v lo ≤ (listSpec R.text f (effHi v hi) a sep abort (K.drop j)).entries.length) →
+        ∃ e W', run R (n + 1) (.list v id lo hi a sep abort) lx ctx W = (.err e, W') ∧ W'.log = W.log ∧
+          ((listSpec R.text f (effHi v hi) a sep abort (K.drop j)).nbad = 0 →
+            ∃ sp, e = mkErr (.count sp (listSpec R.text f (effHi v hi) a sep abort (K.drop j)).entries.length
+              (effLo v lo) (effHi v hi))))) :=
+  ⟨fun hs h21 => list_sink ok hp H hF n v id lo hi ctx W hhi hlo hat hrec hW hs hne h21,
+   fun hs => list_nosink ok hp H hF n v id lo hi ctx W hhi hlo hat hrec hW hs hne⟩
+
+/-- what `SinkConcl` abbreviates -/
+theorem C11_sinkConcl_def (R : RunEnv) (m : Metrics) (len : Nat) (f : Option Nat) (K : List (RawTok Tok)) (a : G)
+    (sep : Nat) (abort : List Nat) (n v id lo : Nat) (hi : Option Nat) (j : Nat) (lx : Lx) (ctx : Ctx) (W : World) :
+    SinkConcl R m len f K a sep abort n v id lo hi j lx ctx W ↔
+    ∃ lx' W' errs,
+      run R (n + 1) (.list v id lo hi a sep abort) lx ctx W =
+        (.ok (.list ((listSpec R.text f (effHi v hi) a sep abort (K.drop j)).entries.map (render v))) lx', W') ∧
+      AtIdx R.E m len f K (j + (listSpec R.text f (effHi v hi) a sep abort (K.drop j)).consumed) lx' ∧
+      lx'.recover = none ∧
+      errs.length = (listSpec R.text f (effHi v hi) a sep abort (K.drop j)).nbad ∧
+      W'.log = W.log ++ errs ++
+        (if (listSpec R.text f (effHi v hi) a sep abort (K.drop j)).entries.length < effLo v lo then
+          [ctx.apply (mkErr (.count lx'.parseSpan
+            (listSpec R.text f (effHi v hi) a sep abort (K.drop j)).entries.length (effLo v lo) (effHi v hi)))]
+         else []) := Iff.rfl
+
+/-- the rendering of entries, spelled out -/
+theorem C11_render_def (v : Nat) (x : Val) :
+    render v (some x) = (if v < 2 then Val.some x else x) ∧ render v none = (if v < 2 then Val.none else Val.dflt) :=
+  ⟨rfl, rfl⟩
+
+/-! ### the hypotheses: syntactic sufficient conditions -/
+
+/-- **Decidable sufficient condition for `ItemHyp`.** -/
+theorem C11_item_syntactic (text : Text) (f : Option Nat) (a : G) (sep : Nat) (abort : List Nat)
+    (hloc : locG (sep :: abort) a = true) (hnn : nnG a = true) : ItemHyp text f a sep abort :=
+  itemHyp_of_syntax text f a sep abort hloc hnn
+
+/-- the fragment alone gives locality; non-nullability may also be supplied semantically -/
+theorem C11_item_local (text : Text) (f : Option Nat) (a : G) (sep : Nat) (abort : List Nat)
+    (hloc : locG (sep :: abort) a = true)
+    (hnn : ∀ k (s : PState) v s', s.filter = f → peg text k a s = .ok v s' → s'.view.length < s.view.length) :
+    ItemHyp text f a sep abort :=
+  itemHyp_of_locG text f a sep abort hloc hnn
+
+/-- For items without a stop parser the fuel hypothesis is "4000 is enough on every segment". -/
+theorem C11_spec_fuel {text : Text} {f : Option Nat} {a : G} {K : List (RawTok Tok)}
+    (hu : PegFuel.noUntil a = true)
+    (h : ∀ seg, seg <:+: K → peg text 4000 a ⟨seg, .eot, f⟩ ≠ .fuel) : SpecFuelOK text f a K :=
+  specFuelOK_of_ne_fuel hu h
+
+/-- the reference evaluator's fuel is not a bound on behaviour (no stop parsers) -/
+theorem C11_peg_fuel_mono (text : Text) {n m : Nat} (hm : n ≤ m) (g : G) (s : PState)
+    (hg : PegFuel.noUntil g = true) (h : peg text n g s ≠ .fuel) : peg text m g s = peg text n g s :=
+  PegFuel.peg_fuel_mono text hm g s hg h
+
+theorem C11_locG_noUntil (bs : List Nat) (g : G) (h : locG bs g = true) : PegFuel.noUntil g = true :=
+  locG_noUntil bs g h
+
+/-! ### locality is necessary -/
+
+/-- the item `left(one(a), end_of_text)` satisfies the hypotheses of `C11_statement` -/
+theorem C11_endOfText_item (text : Text) (f : Option Nat) : ItemHyp0 text f EndOfText.a 4 [5] := by
+  refine ⟨rfl, ?_, ?_⟩
+  · intro k s v s' _ h
+    obtain ⟨r, hp, _⟩ := EndOfText.a_shape text k s v s' h
+    rw [ListRefine.view_of_pop_some hp]; simp
+  · intro k s v s' _ h
+    obtain ⟨r, hp, hk⟩ := EndOfText.a_shape text k s v s' h
+    refine ⟨segOf 4 [5] s'.view, ?_⟩
+    rw [ListRefine.view_of_pop_some hp]
+    have : tailOf 4 [5] (r :: s'.view) = tailOf 4 [5] s'.view := by
+      unfold tailOf
+      rw [List.dropWhile_cons, hk]
+      rfl
+    rw [this]
+    exact (seg_tail 4 [5] s'.view).symm
+
+/-- **Locality is necessary.**  `C11_statement` (fragment + non-nullable + separator/abort-free,
+no locality) is false: for the item `left(one(a), end_of_text)` on the text `a,a` with a sink,
+the model yields `[placeholder, a]` and reports one error (the `,` is not the end of the text),
+while `listSpec` judges both isolated segments good and expects no error.  Not an F21 case. -/
+theorem C11_needs_locality : ¬ C11_statement := by
+  intro h
+  have hne : (run EndOfText.R (9 + 1) (.list 3 1 0 none EndOfText.a 4 [5]) EndOfText.lx sinkCtx World.init).1 ≠ .fuel := by
+    intro e
+    have := EndOfText.run_eq.1
+    rw [show run EndOfText.R 10 EndOfText.g EndOfText.lx sinkCtx World.init =
+      run EndOfText.R (9 + 1) (.list 3 1 0 none EndOfText.a 4 [5]) EndOfText.lx sinkCtx World.init from rfl, e] at this
+    cases this
+  obtain ⟨lx', W', errs, h1, _, _, h4, h5⟩ := h EndOfText.R m0 3 (tabM_ok _ _ _ (Nat.le_refl _)) (tabM_pass _) none
+    EndOfText.a 4 [5] (C11_endOfText_item _ _) EndOfText.K (EndOfText.a_fuelOK _) 9 3 1 0 none 0 EndOfText.lx sinkCtx
+    World.init (by decide) rfl (atIdx_new _ _ _ EndOfText.kept_eq) rfl (Or.inl rfl) rfl hne EndOfText.spec_eq.2.2
+  have hspec := EndOfText.spec_eq
+  have e1 : effHi 3 none = none := rfl
+  have e2 : EndOfText.K.drop 0 = EndOfText.K := rfl
+  rw [e1, e2] at h4 h5
+  rw [hspec.1] at h4
+  rw [hspec.2.1] at h5
+  have herrs : errs = [] := List.eq_nil_of_length_eq_zero h4
+  subst herrs
+  have hlen : W'.log.length = 0 := by
+    rw [h5]
+    simp [World.init, effLo]
+  have hW' : W' = (run EndOfText.R 10 EndOfText.g EndOfText.lx sinkCtx World.init).2 := by
+    rw [show run EndOfText.R 10 EndOfText.g EndOfText.lx sinkCtx World.init =
+      run EndOfText.R (9 + 1) (.list 3 1 0 none EndOfText.a 4 [5]) EndOfText.lx sinkCtx World.init from rfl, h1]
+  rw [hW', EndOfText.run_eq.2] at hlen
+  cases hlen
+
+/-- Negative lookahead without `end_of_text`: `F := pred(a ∧ ¬a)` always fails, the item
+`left(one(a), implies(one(','), F))` never consumes a separator, and fails exactly in front of
+one.  On `a,a`: model `[placeholder, a]` + one error; `listSpec`: two good entries. -/
+theorem C11_lookahead_witness :
+    okDflt (run EndOfText.R 12 Lookahead.g EndOfText.lx sinkCtx World.init).1 = some [true, false] ∧
+    (run EndOfText.R 12 Lookahead.g EndOfText.lx sinkCtx World.init).2.log.length = 1 ∧
+    pegWithRep Lookahead.a = true ∧
+    (listSpec EndOfText.R.text none none Lookahead.a 4 [5] EndOfText.K).nbad = 0 ∧
+    (listSpec EndOfText.R.text none none Lookahead.a 4 [5] EndOfText.K).entries.length = 2 ∧
+    (listSpec EndOfText.R.text none none Lookahead.a 4 [5] EndOfText.K).lastBadAtEnd = false :=
+  ⟨Lookahead.run_eq.1, Lookahead.run_eq.2, rfl, Lookahead.spec_eq.1, Lookahead.spec_eq.2.1, Lookahead.spec_eq.2.2⟩
+
+/-- `seq_count` in front of a byte the scanner rejects (text `a#`): the item
+`right(one(a), seq_count([b]))` fails in the model (`UnrecognizedTokenError`), the segment is bad
+and runs to the end: `Err(RecoverError)` — but `evalSegment` ends every isolated segment with
+end-of-text, so `listSpec` has one good entry and does not flag F21. -/
+theorem C11_rejected_witness :
+    AtIdx Rejected.R.E m0 2 none Rejected.K 0 Rejected.lx ∧
+    isRecoverErr (run Rejected.R 12 Rejected.g Rejected.lx sinkCtx World.init).1 = true ∧
+    (run Rejected.R 12 Rejected.g Rejected.lx sinkCtx World.init).2.log.length = 1 ∧
+    pegWithRep Rejected.a = true ∧
+    (listSpec Rejected.R.text none none Rejected.a 4 [5] Rejected.K).nbad = 0 ∧
+    (listSpec Rejected.R.text none none Rejected.a 4 [5] Rejected.K).entries.length = 1 ∧
+    (listSpec Rejected.R.text none none Rejected.a 4 [5] Rejected.K).lastBadAtEnd = false :=
+  ⟨atIdx_new _ _ _ Rejected.kept_eq, Rejected.run_eq.1, Rejected.run_eq.2, rfl, Rejected.spec_eq.1,
+    Rejected.spec_eq.2.1, Rejected.spec_eq.2.2⟩
+
+/-! ### 3. finding F21 -/
+
+/-- **F21**, by evaluation.  Text ` ` (one whitespace token, no filter),
+`list_bounded(1, Some(1), one(a), ',', [';'])`, sink installed: the model returns
+`Err(RecoverError)` (having logged the item's error), although `listSpec` has exactly one
+entry — a bad one — consumes the token, and flags the case (`lastBadAtEnd`). -/
+theorem C11_finding_F21 :
+    AtIdx F21.R.E m0 1 none F21.K 0 F21.lx ∧
+    isRecoverErr (run F21.R 8 F21.g F21.lx sinkCtx World.init).1 = true ∧
+    (run F21.R 8 F21.g F21.lx sinkCtx World.init).2.log.length = 1 ∧
+    (listSpec F21.R.text none (some 1) (.one 0) 4 [5] F21.K).entries.map Option.isNone = [true] ∧
+    (listSpec F21.R.text none (some 1) (.one 0) 4 [5] F21.K).consumed = 1 ∧
+    (listSpec F21.R.text none (some 1) (.one 0) 4 [5] F21.K).lastBadAtEnd = true :=
+  ⟨atIdx_new _ _ _ F21.kept_eq, F21.run_eq.1, F21.run_eq.2, F21.spec_eq.1, F21.spec_eq.2.2, F21.spec_eq.2.1⟩
+
+/-! ### 4. no panic -/
+
+/-- **C11 / C01 for `list*`: the combinator never panics.**  Any scanner satisfying the contract,
+any well-formed entry lexer (recovering from an earlier error or not), any context (sink or
+not), any world in which the closure identity is fresh or already the list's; item in the
+fragment `pegWithRep` (no other hypothesis); bounds `lo ≤ hi` (otherwise the Rust panics on
+purpose: "list with high < low"). -/
+theorem C11_no_panic {R : RunEnv} {m : Metrics} {len : Nat} (ok : ScanOK R.E m len) (hp : PassOK R.E)
+    {f : Option Nat} {a : G} (sep : Nat) (abort : List Nat) (hfrag : pegWithRep a = true)
+    (n v id lo : Nat) (hi : Option Nat) {lx : Lx} (ctx : Ctx) (W : World)
+    (hlo : hiBelow (effHi v hi) (effLo v lo) = false) (inv : Inv R.E m len f lx)
+    (hW : specOf W id = none ∨ specOf W id = some (patOf sep abort)) :
+    (run R n (.list v id lo hi a sep abort) lx ctx W).1 ≠ .panic :=
+  list_no_panic_frag ok hp sep abort hfrag n v id lo hi ctx W hlo inv hW
+
+/-- The loop statement behind it: `listLoop` entered with no value taken yet (the lexer may then
+still be recovering), or with a lexer that is not recovering, never panics — so the
+`debug_assert!(vals.is_empty() || lexer.recover_state().is_none())` of `finish` holds on every
+path (it is the only panic site of the loop besides the item's own). -/
+theorem C11_loop_no_panic {R : RunEnv} {m : Metrics} {len : Nat} (ok : ScanOK R.E m len) (hp : PassOK R.E)
+    {f : Option Nat} {a : G} (sep : Nat) (abort : List Nat) (hfrag : pegWithRep a = true)
+    (v id lo : Nat) (hi : Option Nat) (ctx : Ctx) (n : Nat) (lexer : Lx) (vals : List Val) (W : World)
+    (inv : Inv R.E m len f lexer) (h : vals = [] ∨ lexer.recover = none)
+    (hW : specOf W id = none ∨ specOf W id = some (patOf sep abort)) :
+    (listLoop R n v id lo hi a sep abort lexer ctx W vals).1 ≠ .panic :=
+  loop_np ok hp sep abort hfrag v id lo hi ctx n lexer vals W inv h hW
+
+/-- the assertion is not vacuous: `finish` does panic on a recovering lexer with a value -/
+theorem C11_finish_assert (ctx : Ctx) (lo : Nat) (hi : Option Nat) (lx : Lx) (x : Val) (vals : List Val) (W : World)
+    (id : Nat) (h : lx.recover = some id) :
+    Term.listFinish ctx lo hi lx (x :: vals) W = (.panic, W) := by
+  simp [Term.listFinish, h]
+
+/-! ### non-vacuity -/
+
+/-- The hypotheses are satisfiable and the theorem applies: text `a,b;`, item `one(a)`,
+`list_bounded_default(0, None, …)` with a sink — the conclusion of `C11_list_partial` holds for
+this run (two entries, the second a placeholder, one error, three tokens consumed). -/
+example : SinkConcl Good.R m0 4 none Good.K Good.a 4 [5] 9 3 1 0 none 0 Good.lx sinkCtx World.init ∧
+    (listSpec Good.R.text none none Good.a 4 [5] Good.K).nbad = 1 ∧
+    (listSpec Good.R.text none none Good.a 4 [5] Good.K).entries.length = 2 ∧
+    (listSpec Good.R.text none none Good.a 4 [5] Good.K).consumed = 3 :=
+  ⟨(C11_list_partial (tabM_ok _ _ _ (Nat.le_refl _)) (tabM_pass _) Good.item (Good.fuelOK Good.K) 9 3 1 0 none sinkCtx
+      World.init (by decide) rfl (atIdx_new _ _ _ Good.kept_eq) rfl (Or.inl rfl) Good.run_ne_fuel).1 rfl
+      Good.spec_eq.2.2.2,
+    Good.spec_eq.1, Good.spec_eq.2.1, Good.spec_eq.2.2.1⟩
+
+/-- the syntactic conditions are decidable and hold for typical items -/
+example : locG [4, 5] (.right (.one 0) (.repeat_ 0 0 none (.any [1, 2]))) = true ∧
+    nnG (.right (.one 0) (.repeat_ 0 0 none (.any [1, 2]))) = true := ⟨rfl, rfl⟩
+
+/-- and fail for the counterexample items -/
+example : locG [4, 5] EndOfText.a = false ∧ locG [4, 5] Lookahead.a = false ∧ locG [4, 5] Rejected.a = false :=
+  ⟨rfl, rfl, rfl⟩
 
 end Tephra.Props
